@@ -156,12 +156,13 @@ func (c *Ctx) inmemClassEdges(r *inmemRoles, r1, r2 string) {
 					if lk == nil {
 						return
 					}
-					w, err := (ir.Query{Fn: fn, From: in,
-						BlockEdge: func(from, to *ssa.BasicBlock) bool {
+					// per path (a flag cleared on the expired branch and tested afterwards decides infeasible ways)
+					w, err := (ir.PathQuery{Fn: fn, From: in,
+						StopEdge: func(from, to *ssa.BasicBlock) bool {
 							k := r.expiryEdge(from, to)
 							return k == freshEdge || k == noExpiryEdge
 						},
-						Target: func(x ssa.Instruction) bool { return x == at }}).Find()
+						Target: func(x ssa.Instruction, _ *ir.Valuation) bool { return x == at }}).Find()
 					if err != nil || w != nil {
 						live = false
 					}
